@@ -271,9 +271,12 @@ def _factories(key):
                 mixed = [jnp.ones(2, jnp.float16)] + [jnp.ones(2, jnp.float32)] * (len(st) - 1)
                 t = StokesPyTree.from_stokes(*mixed)
                 chk(all(l.dtype == jnp.float32 for l in _comp(t)), 'from_stokes dtype promotion')
-                full = [jnp.ones(2, jnp.float16), jnp.ones(2, jnp.float16), jnp.ones(2, jnp.float32), jnp.ones(2, jnp.float32)]
-                t = cls.from_iquv(*full)
-                chk(len({str(l.dtype) for l in _comp(t)}) == 1, 'from_iquv dtype promotion across components')
+                for wide in range(4):
+                    full = [jnp.ones(2, jnp.float32 if k == wide else jnp.float16) for k in range(4)]
+                    t = cls.from_iquv(*full)
+                    own = [full['IQUV'.index(c)].dtype for c in st]
+                    chk(all(l.dtype == jnp.result_type(*own) for l in _comp(t)),
+                        f'from_iquv dtype promotion across components (wide component {"IQUV"[wide]}: got {[str(l.dtype) for l in _comp(t)]})')
             s = StokesPyTree.from_stokes(*[jax.ShapeDtypeStruct((2,), jnp.float32)] * len(st))
             chk(type(s) is cls, 'from_stokes on structures')
             chk(cls.structure_for((3,), jnp.float32).shape == (3,) and cls.zeros((3,), jnp.float32).structure == cls.structure_for((3,), jnp.float32), 'shape/structure properties')
